@@ -51,7 +51,7 @@ LOPT_POOL = ['-Wl,--as-needed', '-Wl,-O1', '-L/opt/lib dir', '-s']
 
 @st.composite
 def cases(draw):
-    model = draw(graph.projects(max_steps=7, allow_always=False))
+    model = draw(graph.projects(max_steps=7, allow_always=True))
     decor = {'global_options': draw(st.lists(st.sampled_from(OPT_POOL),
                                              max_size=2, unique=True)),
              'global_link_options': draw(st.lists(
@@ -287,6 +287,12 @@ def prop_diff(rec):
             labs.add('dual-library')
         if case['envflags']:
             labs.add('env-flags')
+        for s_ in model['steps']:
+            if s_['kind'] == 'step' and s_['always']:
+                labs.add('always-outdated' + ('-multi-output'
+                                              if len(s_['outs']) > 1 else ''))
+            if s_.get('mode', 'copy') not in (None, 'copy'):
+                labs.add('copy-' + s_['mode'])
         rec.case(labs, nontrivial=(
             [graph.canonical(model), sorted(case['envflags']),
              case['conf'], model['decor']['global_options'],
@@ -450,11 +456,49 @@ def prop_diff(rec):
                                             ['all'])
                     sets[b] = set(per_output(sandbox.read_log(log), root))
                     os.rename(bld, bld + '.' + b)
+                # a link carries the time stamp of its target: Make finds it
+                # up to date, Ninja compares with the time it logged and
+                # re-makes it; both are right
+                for m in g:
+                    if m.get('transparent'):
+                        for b in sets:
+                            sets[b].discard(m['outputs'][0][2:])
                 if sets['make'] != sets['ninja']:
                     raise Violation('diff/rebuild-set', 'after touching {}: '
                                     'make rebuilt {} but ninja {}'.format(
                                         f, sorted(sets['make'], key=str),
                                         sorted(sets['ninja'], key=str)), case)
+            # (5) every custom step as an explicit target, twice in a row:
+            # the same steps run under both backends (a step that is always
+            # out of date runs again, any other does not)
+            for st_ in model['steps']:
+                if st_['kind'] != 'step':
+                    continue
+                for attempt in (1, 2):
+                    sets = {}
+                    clock.tick(tmp)
+                    for b in ('make', 'ninja'):
+                        os.rename(bld + '.' + b, bld)
+                        log = os.path.join(tmp, 'slog.' + b)
+                        if os.path.exists(log):
+                            os.unlink(log)
+                        sandbox.run_backend(b, bld, dict(env, VF_LOG=log),
+                                            [st_['outs'][0]])
+                        sets[b] = set(per_output(sandbox.read_log(log),
+                                                 root))
+                        os.rename(bld, bld + '.' + b)
+                    for m in g:
+                        if m.get('transparent'):
+                            for b in sets:
+                                sets[b].discard(m['outputs'][0][2:])
+                    if sets['make'] != sets['ninja']:
+                        raise Violation(
+                            'diff/target-rebuild-set', 'building {} '
+                            '(attempt {} after a full build): make ran {} '
+                            'but ninja {}'.format(
+                                st_['outs'][0], attempt,
+                                sorted(sets['make'], key=str),
+                                sorted(sets['ninja'], key=str)), case)
     return prop
 
 
